@@ -25,6 +25,7 @@ RULE = (
     "position arrays); the real optimizer is run with every optimize_clamp call wrapped to snapshot the point array; the "
     "reported quality is compared with a fresh grid over the final points. non-trivial "
     "= a distinct optimisation run"
+    " Grid s31k: a clamp on an outer corner of a strip of three quads."
 )
 ASSUMPTIONS = [
     "every clamp's manifold is constructed through its vertex (an off-manifold clamp would snap and match no junction)",
